@@ -367,7 +367,17 @@ func vC02NRun(t *testing.T, c vC02NCase) (obs vC02NObs) {
 						op.sid = hk
 					}
 				}
-				if op.sid != "" {
+				if op.sid == "" && s.Pin {
+					// the very block another peer already published (same pin, same parents, same height): one block, two issuers
+					for _, hk := range peers[r].heads(t) {
+						if !headsBefore[hk] {
+							op.sid = hk
+						}
+					}
+					if op.sid != "" {
+						lastMade[r] = op.sid
+					}
+				} else if op.sid != "" {
 					made[op.sid] = r
 					lastMade[r] = op.sid
 				}
@@ -584,7 +594,7 @@ func vC02NRun(t *testing.T, c vC02NCase) (obs vC02NObs) {
 		}
 		return true
 	}
-	mergeOrder := func(np *vc02NetPeer) []int {
+	mergeOrder := func(np *vc02NetPeer, self int) []int {
 		np.p.fds.mu.Lock()
 		bs := append([]vc02BatchRec{}, np.p.fds.batches...)
 		np.p.fds.mu.Unlock()
@@ -621,14 +631,16 @@ func vC02NRun(t *testing.T, c vC02NCase) (obs vC02NObs) {
 					ts[tk{ki, idOf["/"+parts[5]]}] = true
 				}
 			}
-			if i+1 < len(bs) && bs[i+1].kind == "elems" { // the tombstones of a delta that also has elements (not in direct mode)
-				continue
-			}
+			// (H3 writes without batching: a delta has elements or tombstones, never both)
+			// several deltas may carry the same tombstones (two peers unpin at once): the peer's own one was merged first
+			// (had the other arrived before, its own unpin would have found nothing left to tombstone)
 			found := 0
-			for _, d := range obs.Deltas {
-				if len(d.Adds) == 0 && !done[d.ID] && sameTk(tombsOfDelta(d), ts) {
-					found = d.ID
-					break
+			for pass := 0; pass < 2 && found == 0; pass++ {
+				for _, d := range obs.Deltas {
+					if len(d.Adds) == 0 && !done[d.ID] && sameTk(tombsOfDelta(d), ts) && (pass == 1 || d.By == self) {
+						found = d.ID
+						break
+					}
 				}
 			}
 			if found == 0 {
@@ -681,7 +693,7 @@ func vC02NRun(t *testing.T, c vC02NCase) (obs vC02NObs) {
 		}
 		sort.Slice(fin, func(a, b int) bool { return fin[a][0] < fin[b][0] })
 		obs.Finals = append(obs.Finals, fin)
-		obs.Merged = append(obs.Merged, mergeOrder(peers[i]))
+		obs.Merged = append(obs.Merged, mergeOrder(peers[i], i))
 		if obs.Err != "" {
 			return
 		}
